@@ -1,4 +1,5 @@
 import SelenModel.Lemmas.Search
+import SelenModel.Lemmas.Validate
 /-
 C02 — solve() succeeds exactly on satisfiable models.
 
@@ -57,6 +58,20 @@ theorem C02_solve_complete_total (m : IModel) (h : m.WF) (hnd : ∀ d ∈ m.doms
     (fuel : Nat) (hf : m.fuelBound ≤ fuel) (a : Asg) (ha : m.IsSol a) :
     ∃ v, solveResult (search m.n none pol fuel m.ps m.store) = some v :=
   C02_solve_complete m h pol fuel a ha (m.search_terminates h hnd none (fun _ e => by cases e) pol fuel hf)
+
+/-- **C02, validation step.** `solve` first runs `ModelValidator::validate`; its
+`ConflictingConstraints` verdict for an all-different constraint over integer variables (two
+variables fixed to the same value, or fewer distinct values than variables) is given only when
+no assignment of pairwise different values inside the domains exists — pigeonhole, any number of
+variables. (`adScan` is compared with the code by the `validate` suite.) -/
+theorem C02_alldiff_validation_sound (ds : List (List Int))
+    (h : Determ.adScan ds.length (ds.map some) [] [] ≠ .ok) : ¬ ∃ vs, Validate.ADSol ds vs :=
+  Validate.adScan_reject_sound ds h
+
+/-- finding `alldiff-float-counted`: float variables are skipped by the scan but counted in the
+number of required values, so `alldiff(x : float, y ∈ {1})` is rejected although satisfiable -/
+theorem C02_alldiff_float_counterexample :
+    Determ.adScan 2 [none, some [1]] [] [] = .tooFew 2 1 := by decide
 
 end C02
 end Selen
